@@ -8,6 +8,7 @@ import (
 	"os"
 	"time"
 
+	"verif/harness/distributor"
 	"verif/harness/minter"
 	"verif/harness/walk"
 )
@@ -45,6 +46,13 @@ func main() {
 		res, _, err := minter.Run(*edges, *workers, *budget, *walks, *depth, *seed)
 		if err != nil {
 			fmt.Fprintln(os.Stderr, "minter:", err)
+			os.Exit(2)
+		}
+		writeResult(*out, res)
+	case "distributor":
+		res, err := distributor.Run(*edges, *workers, *budget, *walks, *depth, *seed)
+		if err != nil {
+			fmt.Fprintln(os.Stderr, "distributor:", err)
 			os.Exit(2)
 		}
 		writeResult(*out, res)
